@@ -72,3 +72,122 @@ func (r *Run) dirPairwiseDisjoint(d *Directive) []*Obligation {
 	}
 	return out
 }
+
+func init() {
+	directiveHandlers["switch-groups"] = dirSwitchGroups
+}
+
+// switch-groups <Func> <Ctor> <field>
+// In <Func>, a loop `for name, pattern := range x.<field>` computes found :=
+// pattern.FindStringSubmatch(..) and switches on `name`. Every `found[k]` in the case for a
+// name must be within the number of capture groups of the pattern that <Ctor> registers
+// under that name in the composite literal of <field> (read from the current source).
+func dirSwitchGroups(r *Run, d *Directive) []*Obligation {
+	f := strings.Fields(d.Args)
+	if len(f) < 3 {
+		return dirFail(d, "switch-groups", "needs: Func Ctor field")
+	}
+	fn := r.w.funcs[d.Pkg+"::"+f[0]]
+	ctor := r.w.funcs[d.Pkg+"::"+f[1]]
+	if fn == nil || ctor == nil || fn.decl == nil || ctor.decl == nil {
+		return dirFail(d, "switch-groups:"+f[0], "function not found")
+	}
+	info := fn.pkg.TypesInfo
+	constStr := func(e ast.Expr) (string, bool) {
+		if tv, ok := info.Types[e]; ok && tv.Value != nil {
+			s := tv.Value.ExactString()
+			if len(s) >= 2 && s[0] == '"' {
+				var out string
+				if _, err := fmt.Sscanf(s, "%q", &out); err == nil {
+					return out, true
+				}
+			}
+		}
+		return "", false
+	}
+	// name -> pattern literal from the constructor's map literal
+	registered := map[string]string{}
+	ast.Inspect(ctor.decl.Body, func(n ast.Node) bool {
+		kv, ok := n.(*ast.KeyValueExpr)
+		if !ok {
+			return true
+		}
+		if id, ok := kv.Key.(*ast.Ident); !ok || id.Name != f[2] {
+			return true
+		}
+		cl, ok := kv.Value.(*ast.CompositeLit)
+		if !ok {
+			return true
+		}
+		for _, el := range cl.Elts {
+			e, ok := el.(*ast.KeyValueExpr)
+			if !ok {
+				continue
+			}
+			if tv, ok := ctor.pkg.TypesInfo.Types[e.Key]; ok && tv.Value != nil {
+				var key string
+				fmt.Sscanf(tv.Value.ExactString(), "%q", &key)
+				if lit, ok := r.w.regexByName[exprString(e.Value)]; ok {
+					registered[key] = lit
+				}
+			}
+		}
+		return false
+	})
+	ob := &Obligation{Name: fmt.Sprintf("%s.reglemma/switch-groups:%s", pkgShort(d.Pkg), f[0]), Func: pkgShort(d.Pkg) + "." + f[0], Kind: "reglan", Tags: d.Tags, Solver: "ast+regexp/syntax", Status: "discharged",
+		Descr: "every found[k] in a case of the directive switch is within the capture groups of the pattern registered under that name"}
+	var bad []string
+	cases := 0
+	ast.Inspect(fn.decl.Body, func(n ast.Node) bool {
+		sw, ok := n.(*ast.SwitchStmt)
+		if !ok || sw.Tag == nil {
+			return true
+		}
+		for _, cs := range sw.Body.List {
+			cc := cs.(*ast.CaseClause)
+			for _, ce := range cc.List {
+				name, ok := constStr(ce)
+				if !ok {
+					continue
+				}
+				lit, ok := registered[name]
+				if !ok {
+					bad = append(bad, "case "+name+": no pattern registered under this name")
+					continue
+				}
+				ri := r.w.regexInfo(lit)
+				cases++
+				for _, st := range cc.Body {
+					ast.Inspect(st, func(m ast.Node) bool {
+						ix, ok := m.(*ast.IndexExpr)
+						if !ok {
+							return true
+						}
+						if id, ok := ix.X.(*ast.Ident); ok && id.Name == "found" {
+							if bl, ok := ix.Index.(*ast.BasicLit); ok {
+								k := 0
+								fmt.Sscanf(bl.Value, "%d", &k)
+								if k > ri.NumSubexp {
+									bad = append(bad, fmt.Sprintf("case %s: found[%d] but pattern %q has %d groups", name, k, lit, ri.NumSubexp))
+								}
+							} else {
+								bad = append(bad, "case "+name+": non-literal index into found")
+							}
+						}
+						return true
+					})
+				}
+			}
+		}
+		return false
+	})
+	if cases == 0 {
+		bad = append(bad, "no switch over registered pattern names found")
+	}
+	if len(bad) > 0 {
+		ob.Status = "failed"
+		ob.FailStatus = "mismatch"
+		ob.Detail = strings.Join(bad, "; ")
+	}
+	return []*Obligation{ob}
+}
